@@ -237,7 +237,27 @@ def run_merge(eng, op, doc, other, feats):
         if after.get(k) != v[-1:]:
             if k in after and len(after[k]) > 1:
                 return [Violation("C13", "duplicate", "merge", feats + ["family:" + k[3]] + (["draw_named"] if k[2].startswith("draw:") else []), None, f"{len(after[k])} definitions of {k} after merge")]
-            return [Violation("C13", "merge-not-union", "merge", feats + ["family:" + k[3]], None, f"{k}: the other document's definition is not the one in place after the merge")]
+            extra = ["source_has_unnamed_familyless_element"] if any(t[3] == "" and t[4] is None for t in theirs) else []
+            extra += ["lost_is_default_style"] if k[2] == "style:default-style" else []
+            return [Violation("C13", "merge-not-union", "merge", feats + ["family:" + k[3]] + extra, None, f"{k}: the other document's definition is not the one in place after the merge")]
+    # ... and the lookup finds the other document's definition under every (family, name) it brought
+    seen = set()
+    for k, v in theirs.items():
+        fam, name = k[3], k[4]
+        if not fam or not name or (fam, name) in seen or k[2].startswith("draw:") or fam in ("drawing-page",):
+            continue
+        seen.add((fam, name))
+        same = [t for t in theirs if t[3] == fam and t[4] == name]
+        if len(same) != 1:
+            continue  # the other document itself defines it in several places (font faces, per-part automatic styles)
+        try:
+            got = doc.get_style(fam, name)
+        except Exception as e:
+            return [Violation("C13", "lookup-raises", "merge", feats + ["family:" + fam], type(e).__name__, str(e))]
+        if got is None or xmlref.c14n(got._Element__element) != v[-1]:
+            clash = [m for m in mine if m[3] == fam and m[4] == name and m != k]
+            return [Violation("C13", "merge-other-does-not-win", "merge", feats + ["family:" + fam] + (["cross_container_collision"] if clash else []), None,
+                              f"after the merge get_style({fam!r}, {name!r}) does not return the other document's definition (receiving document had it at {clash[:2]})")]
     for k, v in mine.items():
         if k in theirs:
             continue
